@@ -97,6 +97,11 @@ func init() {
 			for _, t := range validTemplates {
 				cases = append(cases, Case{ID: "parse valid " + strings.ReplaceAll(t, "\n", "\\n"), Pkg: "internal/parser", Fn: "ZZC14ParseText", Args: []string{t, "1"}, Tag: "corpus-parse (native parser, by-product)"})
 			}
+			// scripts far longer than any in the suite are still valid scripts
+			for _, n := range []int{70, 130, 400} {
+				t := longProgram(n).text
+				cases = append(cases, Case{ID: fmt.Sprintf("parse valid %d statements", n), Pkg: "internal/parser", Fn: "ZZC14ParseText", Args: []string{t, "1"}, Tag: "corpus-parse (native parser, by-product)"})
+			}
 			// a backslash is an ordinary character of a string unless it is followed by a quote that is not the last one
 			for _, t := range []string{"set_tx_meta(\"k\", \"a\\\")", "set_tx_meta(\"dir\", \"C:\\dir\\\")", "set_account_meta(@b, \"sep\", \"\\\")", "set_tx_meta(\"k\", \"a\\\\\")\nset_tx_meta(\"j\", \"tab\\there\")",
 				"set_tx_meta(\"q\", \"say \\\"hi\\\"\")"} {
